@@ -9,6 +9,7 @@ Driver of C13: evaluates the selection / iteration / concatenation model `FDA.Se
 Requests (token streams):
   slice n oint oint oint                       → `ok <positions>` | `ValueError`
   get   obj index                              → `ok <obj>` | error class
+  getm  obj natvec(0/1)                        → boolean mask
   iter  comp                                   → pieces joined by ` | `
   keyed comp                                   → labels and contents of a per-observation result
   cat   tree                                   → `impl=<obj|error> spec=<obj|error>`
@@ -130,6 +131,13 @@ def answer (l : String) : String :=
       | some (ix, _) => showRes (x.get ix)
       | none => "bad"
     | none => "bad"
+  | "getm" :: ts =>
+    match pObj ts with
+    | some (x, t :: _) =>
+      match parseNatVec? t with
+      | some bits => showRes (x.getMask (bits.map (· != 0)))
+      | none => "bad"
+    | _ => "bad"
   | "iter" :: ts =>
     match pComp ts with
     | some (c, _) => " | ".intercalate (c.iter.map showComp)
